@@ -29,6 +29,9 @@ type seedSpec struct {
 	// Layout: "" one directory in root 0 with Fill entries; "two": root 0 additionally holds a full,
 	// rotated-out directory; "both": with two roots, each root's directory holds Fill entries.
 	Layout string `json:"layout,omitempty"`
+	// Prelude: operations applied in the session itself (after the open on the seed, before the
+	// enumerated history): what the running process remembers is part of the state
+	Prelude string `json:"prelude_in_session,omitempty"`
 }
 
 func (s seedSpec) limit() int {
@@ -56,6 +59,7 @@ func (s seedSpec) spec() dbh.Spec {
 var seedCache = map[seedSpec]*dbh.Snapshot{}
 
 func buildSeed(s seedSpec) (*dbh.Snapshot, error) {
+	s.Prelude = ""
 	if sn, ok := seedCache[s]; ok {
 		return sn, nil
 	}
@@ -330,6 +334,13 @@ func (f *family) run(seed seedSpec, ops string, probeRoot, probePerm int) (o *en
 			o.Steps, o.Checks = w.steps, w.cks
 		}()
 		vrt.Quiesce()
+		for i := 0; i < len(seed.Prelude); i++ {
+			if _, m := w.apply(seed.Prelude[i]); m != nil {
+				m.What = fmt.Sprintf("seed %+v, prelude step %d: %s", seed, i+1, m.What)
+				o.Mismatch = m
+				return
+			}
+		}
 		for i := 0; i < len(ops); i++ {
 			if _, m := w.apply(ops[i]); m != nil {
 				m.What = fmt.Sprintf("seed %+v, history %s, step %d: %s", seed, ops, i+1, m.What)
@@ -443,6 +454,7 @@ func init() {
 		limits := []uint64{7, 101}
 		roots := []int{1, 2}
 		var only map[string]bool
+		prelude := ""
 		for _, kv := range strings.Split(p, ",") {
 			if i := strings.IndexByte(kv, '='); i > 0 {
 				k, v := kv[:i], kv[i+1:]
@@ -465,6 +477,8 @@ func init() {
 					}
 				case "reuse":
 					f.reuse = v != "0"
+				case "prelude":
+					prelude = v
 				case "layouts":
 					only = map[string]bool{}
 					for _, x := range strings.Split(v, ".") {
@@ -486,7 +500,7 @@ func init() {
 					if only != nil && !only[lay] {
 						continue
 					}
-					s := seedSpec{Roots: r, CfgLimit: l, Layout: lay}
+					s := seedSpec{Roots: r, CfgLimit: l, Layout: lay, Prelude: prelude}
 					for _, d := range []int{2, 1, 0} {
 						if lay != "" && d == 2 {
 							continue
